@@ -1,6 +1,7 @@
 package main
 
 import (
+	"bytes"
 	"context"
 	"crypto/ecdsa"
 	"crypto/elliptic"
@@ -11,10 +12,12 @@ import (
 	"encoding/xml"
 	"errors"
 	"fmt"
+	"io"
 	"math/big"
 	"math/rand"
 	"net"
 	"net/http"
+	"os"
 	"strconv"
 	"strings"
 	"sync"
@@ -163,9 +166,51 @@ func featuresXML(f string) string {
 
 const negHeader = "<?xml version='1.0'?><stream:stream xmlns='jabber:client' xmlns:stream='http://etherx.jabber.org/streams' id='srv-stream-1' version='1.0' from='localhost'>"
 
+// sniffConn records what arrives on the raw socket once the TLS handshake is over: a client that goes on in clear
+// text after a successful handshake (its TLS layer by-passed) is answered in clear text, as an attacker in the
+// middle would, so that what it then sends is seen.
+type sniffConn struct {
+	net.Conn
+	mu     sync.Mutex
+	record bool
+	plain  bool
+	post   []byte
+}
+
+func (s *sniffConn) Read(p []byte) (int, error) {
+	n, err := s.Conn.Read(p)
+	s.mu.Lock()
+	defer s.mu.Unlock()
+	if s.record {
+		if s.plain {
+			return 0, errors.New("clear text after the TLS handshake")
+		}
+		// TLS records never contain this in the clear: the client is talking in clear text from here on. The TLS
+		// layer only gets what came before (it must not answer with an alert, which would garble the clear text)
+		if i := bytes.Index(p[:n], []byte("<?xml")); i >= 0 {
+			s.post = append([]byte(nil), p[i:n]...)
+			s.plain = true
+			if i == 0 {
+				return 0, errors.New("clear text after the TLS handshake")
+			}
+			return i, nil
+		}
+	}
+	return n, err
+}
+
+type prefixConn struct {
+	net.Conn
+	r io.Reader
+}
+
+func (p *prefixConn) Read(b []byte) (int, error) { return p.r.Read(b) }
+
 func (sv *negServer) serve(conn net.Conn) {
 	defer conn.Close()
 	m := sv.m
+	raw := &sniffConn{Conn: conn}
+	conn = raw
 	dec := xml.NewDecoder(conn)
 	secure, tlsDone, authDone := false, false, false
 	w := func(s string) { conn.Write([]byte(s)) }
@@ -178,6 +223,18 @@ func (sv *negServer) serve(conn net.Conn) {
 		lastKind = ""
 		tok, err := dec.Token()
 		if err != nil {
+			raw.mu.Lock()
+			post := append([]byte(nil), raw.post...)
+			raw.record = false
+			raw.mu.Unlock()
+			if secure && len(post) > 0 {
+				// clear text after the handshake: go on in clear text
+				conn = &prefixConn{Conn: raw, r: io.MultiReader(bytes.NewReader(post), raw)}
+				dec = xml.NewDecoder(conn)
+				w = func(s string) { conn.Write([]byte(s)) }
+				secure = false
+				continue
+			}
 			return
 		}
 		se, ok := tok.(xml.StartElement)
@@ -216,6 +273,9 @@ func (sv *negServer) serve(conn net.Conn) {
 				if m["hs"] != "true" {
 					return // the server drops the connection instead of handshaking
 				}
+				raw.mu.Lock()
+				raw.record = true
+				raw.mu.Unlock()
 				tc := tls.Server(conn, &tls.Config{Certificates: []tls.Certificate{getPKI().certs[m["cert"]]}})
 				if err := tc.Handshake(); err != nil {
 					return
@@ -494,6 +554,12 @@ func (np negProp) Exec(c Case) []string {
 		StreamManagementEnable: v["sm"] == "true",
 	}
 	xmpp.VerifSetSMResume(cfg, true)
+	if v["logger"] == "true" {
+		if lf, err := os.OpenFile(os.DevNull, os.O_WRONLY, 0); err == nil {
+			cfg.StreamLogger = lf // traffic logging on: the stream logger wraps the connection
+			defer lf.Close()
+		}
+	}
 	client, err := xmpp.NewClient(cfg, xmpp.NewRouter(), func(error) {})
 	if err != nil {
 		return []string{"newclient:" + err.Error()}
@@ -501,6 +567,9 @@ func (np negProp) Exec(c Case) []string {
 	// a transport with ConnectTimeout 0: Close() does not wait for the peer's </stream:stream>
 	xt := xmpp.NewClientTransport(xmpp.TransportConfiguration{Address: "127.0.0.1:1", Domain: "localhost"}).(*xmpp.XMPPTransport)
 	xmpp.VerifSetTransport(client, xt)
+	if cfg.StreamLogger != nil {
+		xt.LogTraffic(cfg.StreamLogger)
+	}
 	var obs []string
 	for i, op := range c.Ops {
 		switch op[0] {
@@ -699,9 +768,13 @@ var negSteps = []string{"conn", "f1", "tls", "hs", "cert", "o2", "f2", "auth", "
 func (np negProp) Generate(rng *rand.Rand, tier string, st *Stats) []Case {
 	var cases []Case
 	n := 0
+	logger := false
 	mk := func(insecure, sm bool, ops ...[]string) {
-		cases = append(cases, Case{ID: fmt.Sprintf("%s-%d", np.id, n),
-			Variant: []string{"insecure=" + strconv.FormatBool(insecure), "sm=" + strconv.FormatBool(sm)}, Ops: ops})
+		v := []string{"insecure=" + strconv.FormatBool(insecure), "sm=" + strconv.FormatBool(sm)}
+		if logger {
+			v = append(v, "logger=true")
+		}
+		cases = append(cases, Case{ID: fmt.Sprintf("%s-%d", np.id, n), Variant: v, Ops: ops})
 		n++
 	}
 	bools := []bool{false, true}
@@ -761,6 +834,17 @@ func (np negProp) Generate(rng *rand.Rand, tier string, st *Stats) []Case {
 			}
 		}
 	}
+
+	// traffic logging on (the stream logger sits between the transport and the socket, also after STARTTLS)
+	logger = true
+	for _, insecure := range bools {
+		for _, sm := range bools {
+			mk(insecure, sm, happy(true, false, sm).op(), happy(false, false, sm).op())
+			mk(insecure, sm, happy(true, true, sm).with("cert", "altonly", "sn", hx("alt.example")).op())
+			st.Inc("stream_logger_on")
+		}
+	}
+	logger = false
 
 	// TLS matrix (C04): client settings x certificate classes x STARTTLS behaviour
 	if np.id != "C11" {
